@@ -51,6 +51,13 @@ theorem parameter_path_separate :
 theorem define_only_constants :
     ((external.filter (fun s => s.method == 8)).all (fun s => s.prov == 16)) = true := by decide
 
+/-- **no_user_generated_comparison**: nowhere in package translate (outside the methods of `Scope`) is a purely
+user-derived string compared (`==`, `!=`) with a purely generated identifier, and no map is indexed by both kinds of
+key. `alias_only_lookup` makes the scope itself blind to how users spell their names; such a comparison would let a
+user alias that happens to be spelled like the generated identifier of a binding (its own or another one) change the
+translation — e.g. a `WITH v AS alias` shortcut `alias != <generated id of v>`. -/
+theorem no_user_generated_comparison : mixedComparisons = [] ∧ mixedKeyMaps = [] := by decide
+
 /-- alias-key uses whose key is NOT purely user-derived -/
 def nonUserAliasKeySites : List (String × String) :=
   (external.filter (fun s => isAliasKeyAccess s && s.prov != 1)).map (fun s => (s.file, s.fn))
